@@ -231,7 +231,20 @@ def build_file(case):
             raise AssertionError(r)
         s['sh_addr'] = 0x1000 * idx[r]
         secs.append(s)
-    m = {'cls': cls, 'le': le, 'e_type': 3, 'e_machine': case.get('e_machine', 62), 'sections': secs, 'segments': [],
+    if case.get('with_dynamic') and case.get('order') is None:
+        # a .dynamic section whose DT_VERSYM / DT_VERDEF / DT_VERNEED tags name the version sections (what every linked file has): the
+        # tags say where the tables are, they do not change what an entry means
+        tags = []
+        for r, tag, cnt in (('versym', 0x6ffffff0, None), ('def', 0x6ffffffc, 0x6ffffffd), ('need', 0x6ffffffe, 0x6fffffff)):
+            if r in idx:
+                tags.append((tag, 0x1000 * idx[r]))
+                if cnt:
+                    tags.append((cnt, len(case[r]['entries'])))
+        tags.append((0, 0))
+        dynd = b''.join(struct.pack(W.E(le) + ('II' if cls == 32 else 'QQ'), t, v) for t, v in tags)
+        secs.append({'name': '.dynamic', 'sh_type': 6, 'sh_flags': 3, 'sh_addr': 0x1000 * len(secs), 'sh_entsize': 8 if cls == 32 else 16,
+                     'sh_link': idx.get('str0', 0), 'data': dynd, 'sh_addralign': cls // 8})
+    m = {'cls': cls, 'le': le, 'e_type': case.get('e_type', 3), 'e_machine': case.get('e_machine', 62), 'osabi': case.get('osabi', 0), 'sections': secs, 'segments': [],
          'shstrndx': idx['shstr'], 'order': case.get('order'), 'gaps': case.get('gaps', {}), 'tail': case.get('tail', 0)}
     data, R = W.build(m)
     info['R'] = R
@@ -747,6 +760,20 @@ def run_case(ctx, case):
             sec = None
         if sec is not None:
             check_versym(ctx, case, sec, case['versym']['ndx'], info['symnames'])
+            if case.get('with_dynamic') and case.get('order') is None:
+                # the same tables in a file without the .dynamic section: every entry is reported the same way
+                try:
+                    data2, info2 = build_file(dict(case, with_dynamic=False))
+                    sec2 = ELFFile(io.BytesIO(data2)).get_section(info2['idx']['versym'])
+                    a = [(repr(x['ndx']), x.name) for x in sec.iter_symbols()]
+                    b = [(repr(x['ndx']), x.name) for x in sec2.iter_symbols()]
+                    if a != b:
+                        k = next((i for i, (x, y) in enumerate(zip(a, b)) if x != y), min(len(a), len(b)))
+                        ctx.fail('versym.entry|depends-on-the-presence-of-a-dynamic-section', 'entry %d (encoded %#x): %r with a .dynamic section naming the version tables, %r without' % (
+                            k, case['versym']['ndx'][k] if k < len(case['versym']['ndx']) else -1, a[k:k + 1], b[k:k + 1]), case)
+                    ctx.count('versym.with-and-without-dynamic-section')
+                except Exception as e:  # noqa
+                    ctx.fail_exc('versym.with-and-without-dynamic-section', e, case)
     _register(ctx, case, info, data)
 
 
@@ -980,6 +1007,11 @@ def build_model(ch, tier, force=None):
     case['gaps'] = {str(c): ch.choice([0, 1, 3, 8, 17]) for c in chunks if ch.bool(0.3)}
     case['tail'] = ch.choice([0, 0, 5, 64])
     case['e_machine'] = ch.choice([62, 3, 40, 183, 8, 20])
+    # the version sections are a GNU / Solaris extension keyed by section type; what an entry means does not depend on the OS ABI byte,
+    # the file type or the machine
+    case['osabi'] = ch.choice([0, 0, 3, 6, 6, 9, 12, 97, 255])
+    case['with_dynamic'] = ch.bool(0.4)
+    case['e_type'] = ch.choice([3, 3, 2, 1])
     return case
 
 
